@@ -37,8 +37,8 @@ def rule(tier):
 
 def floors(tier):
     return {"evaluations": 350 if tier == "quick" else 3000, "distinct": 350 if tier == "quick" else 3000,
-            "counters": {"fixture_cases": 130, "api_documents": 150, "tables_compared": 800, "row_heights_compared": 10000, "col_widths_compared": 5000,
-                         "documents_with_borders": 40, "untouched_variants": 100, "later_cycles": 300, "captions_set": 30, "heights_set": 30, "widths_set": 30}}
+            "counters": {"fixture_cases": 200, "partial_variants": 150, "api_documents": 150, "tables_compared": 800, "row_heights_compared": 10000, "col_widths_compared": 5000,
+                         "documents_with_borders": 40, "untouched_variants": 90, "later_cycles": 300, "captions_set": 30, "heights_set": 30, "widths_set": 30}}
 
 
 def plan(tier, seed):
@@ -47,7 +47,7 @@ def plan(tier, seed):
     specs = []
     cycles = 2 if tier == "quick" else 3
     for p in ok:
-        for queried in (False, True):
+        for queried in (False, True, "partial"):
             specs.append({"part": "fixture", "path": p, "queried": queried, "cycles": cycles, "tier": tier, "seed": seed})
     n = 240 if tier == "quick" else 5000
     k = 16 if tier == "quick" else 48
@@ -149,7 +149,22 @@ def cycle_case(src, queried, cycles, rec, case, tag, fx):
             with warnings.catch_warnings():
                 warnings.simplefilter("ignore")
                 doc = Document(cur)
-            if queried:
+            if queried == "partial":
+                # only some rows / columns are queried before saving (deterministic subset)
+                prng = random.Random(f"partial-{tag}-{cycle}")
+                with warnings.catch_warnings():
+                    warnings.simplefilter("ignore")
+                    for si in range(len(doc.sheets)):
+                        for ti in range(len(doc.sheets[si].tables)):
+                            t = doc.sheets[si].tables[ti]
+                            for r in range(t.num_rows):
+                                if prng.random() < .34:
+                                    t.row_height(r)
+                            for c in range(t.num_cols):
+                                if prng.random() < .34:
+                                    t.col_width(c)
+                rec.count("partial_variants")
+            elif queried:
                 geo(doc)
             out = os.path.join(d, f"c16-{tag}-{cycle}.numbers")
             made.append(out)
@@ -185,9 +200,13 @@ def cycle_case(src, queried, cycles, rec, case, tag, fx):
         rec.count("untouched_variants")
 
 
+def variant_name(q):
+    return "partial" if q == "partial" else "queried" if q else "untouched"
+
+
 def run_fixture(spec, rec):
     case = {"part": "fixture", "path": spec["path"], "queried": spec["queried"], "cycles": spec["cycles"]}
-    fx = {"origin": "fixture", "variant": "queried" if spec["queried"] else "untouched"}
+    fx = {"origin": "fixture", "variant": variant_name(spec["queried"])}
     cycle_case(spec["path"], spec["queried"], spec["cycles"], rec, case, "fx", fx)
     rec.count("fixture_cases")
     rec.case((os.path.basename(spec["path"]), spec["queried"]))
@@ -291,7 +310,7 @@ def api_case(case, rec):
         return
     try:
         from numbers_parser import Document
-        fx = {"origin": "api", "variant": "queried" if case["queried"] else "untouched", "has_border": borders}
+        fx = {"origin": "api", "variant": variant_name(case["queried"]), "has_border": borders}
         # set-through-the-API vs first reopen
         with warnings.catch_warnings():
             warnings.simplefilter("ignore")
@@ -314,7 +333,7 @@ def api_case(case, rec):
 def run_api(spec, rec):
     rng = random.Random(f"C16-api-{spec['seed']}-{spec['stream']}")
     for i in range(spec["n"]):
-        case = {"part": "api", "rseed": rng.randrange(1 << 40), "queried": rng.random() < .5, "cycles": spec["cycles"]}
+        case = {"part": "api", "rseed": rng.randrange(1 << 40), "queried": rng.choice([False, True, "partial"]), "cycles": spec["cycles"]}
         api_case(case, rec)
         if i == 0:
             rec.sample({"api_document": case})
@@ -330,7 +349,7 @@ def run_shard(spec, rec):
 
 def replay(case, rec):
     if case.get("part") == "fixture":
-        fx = {"origin": "fixture", "variant": "queried" if case["queried"] else "untouched"}
+        fx = {"origin": "fixture", "variant": variant_name(case["queried"])}
         cycle_case(case["path"], case["queried"], case["cycles"], rec, case, "replay", fx)
         rec.case(("replay", case["path"]))
     else:
